@@ -18,7 +18,13 @@ prop(
          "purpose); every expression is a template (aggregation, binary op with on/ignoring/group_left, range and subquery "
          "functions, unary minus, offset, absent, label_replace) over 1-2 references drawn from: metric selector by name (with and "
          "without matchers), {__name__=\"N\"}, ALERTS / ALERTS_FOR_STATE{alertname=\"N\"} (also with further matchers), "
-         "{__name__=\"ALERTS\",alertname=\"N\"}, ALERTS without alertname, ALERTS{alertname!=\"N\"}, up. The branch (1-4 commits) "
+         "{__name__=\"ALERTS\",alertname=\"N\"}, ALERTS without alertname, ALERTS{alertname!=\"N\"}, up. One expression in six selects the SAME metric two or three times with different names (several ALERTS{alertname=..}, "
+         "several ALERTS_FOR_STATE, several plain selectors). One file in three also holds a rule with a rule-level defect (recording "
+         "rule with for/annotations, alert without expr, alert+record, duplicated key, bad label name/value; also added/removed on the "
+         "branch) - such a rule is neither provider nor dependant, and the warnings for valid rules removed next to it are still "
+         "demanded; one file in four holds two adjacent duplicate providers of equal height. The branch (1-4 commits, plus the directed "
+         "operations del-dup-first = delete the first of an adjacent same-name pair so the survivor moves onto its lines, and consume = "
+         "replace a rule in place by an equally tall dependant of the same kind) "
          "removes rules, all rules of one kind+name, whole files; adds replacements of a removed kind+name elsewhere; edits, "
          "duplicates and moves rules, renames files, makes cosmetic edits (lines shift); main may advance. Reference: for every "
          "fork-point rule whose kind+name no longer exists at HEAD, the HEAD rules selecting its metric / its alertname; a "
